@@ -278,3 +278,53 @@ Section RoundTrip.
     rewrite read_metas by assumption. apply read_datas. exact Hd.
   Qed.
 End RoundTrip.
+
+(** * the table format used by text export / import: one line written, then parsed *)
+
+Lemma trim_right_snoc_blank s : trim_right (s ++ [x20]) = trim_right s.
+Proof.
+  induction s as [|b r IH]; [reflexivity|]. cbn [app trim_right]. now rewrite IH.
+Qed.
+
+Section TableLine.
+  Variable O : dee_ops.
+
+  (** the code of a key as export writes it: [core] without surrounding isspace bytes,
+      followed by the one blank that ends every code *)
+  Definition tidy (core : bytes) : Prop := core <> [] /\ drop_ws core = core /\ trim_right core = core.
+
+  Theorem export_import_line core text v :
+    tidy core -> text <> [] -> Forall (fun b => is_tab b = false) core -> Forall (fun b => is_tab b = false) text ->
+    (0 <= commits (unpack O v))%Z ->
+    let k := (core ++ [x20]) ++ TAB :: text in
+    let c := commits (unpack O v) in
+    table_formatter O k v = Some [text; core; print_Z c] /\
+    table_parser O [text; core; print_Z c] = Some (k, pack O {| commits := c; dee := d_of_commits O c; tick := 0 |}).
+  Proof.
+    intros (Hne & Hd & Ht) Htext Tc Tt Hc. cbn zeta.
+    assert (Sk : split_on is_tab ((core ++ [x20]) ++ TAB :: text) = [core ++ [x20]; text]).
+    { rewrite split_on_app; [|apply Forall_app; split; [exact Tc | repeat constructor] | reflexivity].
+      now rewrite split_on_none. }
+    assert (Tr : trim (core ++ [x20]) = core).
+    { unfold trim. destruct core as [|b r]; [contradiction|]. cbn [app] in *. cbn [drop_ws] in *.
+      destruct (is_space b) eqn:E.
+      - exfalso. clear -Hd E. assert (L : length (drop_ws r) <= length r).
+        { clear. induction r as [|x r IH]; [reflexivity|]. cbn [drop_ws]. destruct (is_space x); cbn [length]; lia. }
+        rewrite Hd in L. cbn [length] in L. lia.
+      - change (b :: r ++ [x20]) with ((b :: r) ++ [x20]). rewrite trim_right_snoc_blank. exact Ht. }
+    split.
+    - unfold table_formatter. rewrite Sk.
+      assert (is_empty (core ++ [x20]) = false) as -> by (destruct core; reflexivity).
+      assert (is_empty text = false) as -> by (destruct text; [contradiction|reflexivity]).
+      cbn [orb]. apply Z.ltb_ge in Hc. rewrite Hc, Tr. reflexivity.
+    - unfold table_parser.
+      assert (is_empty text = false) as -> by (destruct text; [contradiction|reflexivity]).
+      assert (is_empty core = false) as -> by (destruct core; [contradiction|reflexivity]).
+      cbn [orb].
+      assert (is_empty (print_Z (commits (unpack O v))) = false) as ->.
+      { pose proof (print_Z_nonempty (commits (unpack O v))). destruct (print_Z _); [contradiction|reflexivity]. }
+      rewrite stoi_print_Z by apply unpack_ok_range.
+      assert (trim core = core) as -> by (unfold trim; now rewrite Hd).
+      rewrite <- app_assoc. reflexivity.
+  Qed.
+End TableLine.
